@@ -124,7 +124,12 @@ def safe_literal_eval(value):
         # manually, but that's right now not implemented.
         return ''
 
-    return literal_eval(value)
+    try:
+        return literal_eval(value)
+    except (SyntaxError, ValueError):
+        # Happens for literals that parso tokenizes, but Python cannot
+        # evaluate, e.g. a string with an invalid escape sequence like "\x".
+        return ''
 
 
 def get_signature(funcdef, width=72, call_string=None,
